@@ -7,6 +7,7 @@ from fractions import Fraction as F
 from lib.core import *
 from lib import gen_ls as g
 from lib import gen_net as gn
+from lib.exact_verdict import XJudge
 from props import c01, c02
 
 ID = "C20"
@@ -53,7 +54,8 @@ LEVEL_NOTE = ("project_equations (revision, linearisation, singular_coords) is a
               "not proved.")
 TECHNIQUE = "Lean 4 proof (structural induction over the removal recursion, decreasing measure) + model/implementation correspondence + differential runs"
 TRUSTED = ["scripted solver in harness/c02_netdecision.cpp replaces LocalNetwork::least_squares (test double, real LocalNetwork code)",
-           "python Jacobian of distances/directions/height differences in tools/props/c20.py (exact rationals)"]
+           "python Jacobian of distances/directions/height differences in tools/props/c20.py (exact rationals)",
+           "tools/lib/exact_verdict.py + gen_ls.reference: decide ls cases whose x / q_xx answers miss the fixed 1e-9 comparison on a demonstrably ill-conditioned problem (both sides against the exact solution; capped, counted)"]
 MODELLED = ["IEEE rounding", "project_equations / singular_coords (abstract world of NetDecision)", "text/XML printing"]
 ASSUMPTIONS = ["rank numerically unambiguous: jittered-grid geometry, planted deficiencies are exact"]
 
@@ -124,6 +126,7 @@ def check_ls(ctx, corr, nprob):
     cases, meta = ls_cases(ctx, nprob)
     impl, crashes = run_cases(exe, cases)
     model, _ = run_cases(ctx.driver("drv_ls"), cases)
+    judge = XJudge(corr, "ls_x")
     for i, (c, (p, S, ok, alg)) in enumerate(zip(cases, meta)):
         corr.case(key=" ".join(c), sample={"ops": c, "impl": impl[i]} if i in (0, 5) else None)
         corr.count(f"ls_alg_{alg}")
@@ -132,8 +135,8 @@ def check_ls(ctx, corr, nprob):
         if i in crashes:
             corr.fail("solver crashed / sanitizer report", {"stream": "ls", "ops": c}, f"{alg}/solver", crashes[i][1])
             continue
-        nm = False
-        for a, b in zip(impl[i], model[i]):
+        nm, miss = False, []
+        for k, (a, b) in enumerate(zip(impl[i], model[i])):
             if b == "not-modelled":
                 nm = True
                 continue
@@ -143,8 +146,13 @@ def check_ls(ctx, corr, nprob):
                 nm = True
                 continue
             if not lines_equal(a, b, rtol=1e-9, atol=1e-9):
-                corr.disagree("ls", c, impl[i], model[i], f"{alg}/solver")
-                break
+                miss.append(k)
+        if miss:
+            # a miss only in the x line of a resolving subset: wrong, or rounding on an ill-conditioned problem?
+            # decided against the EXACT solution (tools/lib/exact_verdict.py); any other miss is a disagreement as before
+            okj, why = judge.misses(p, S, impl[i], model[i], miss, x_at=(2,), resolving=ok)
+            if not okj:
+                corr.disagree("ls", c, impl[i], model[i], f"{alg}/solver" + (": " + why if why else ""))
         corr.count("ls_partly_not_modelled" if nm else "ls_modelled")
         bad = ls_oracle(p, S, ok, alg, impl[i])
         if bad:
